@@ -85,7 +85,7 @@ def confirm(srcs):
         prop = os.path.basename(os.path.dirname(s))
         k = os.path.basename(s)
         sid = '%s-%s%s' % (prop, k, os.environ.get('SEED_SUFFIX', ''))
-        if os.path.exists(os.path.join(SEEDED, sid, 'meta.json')):
+        if os.path.exists(os.path.join(SEEDED, sid, 'meta.json')) and not os.environ.get('SEED_FORCE'):
             continue
         if not os.path.exists(os.path.join(s, 'patch.diff')):
             continue
